@@ -50,7 +50,13 @@ fn hostile_block(name: &str, rng: &mut Rng) -> String {
                     }
                 }
             }
-            InSpec { pkts, len, seed: rng.next() >> 8, m, tbl, tags: gen_tags(rng, len, false), fixed: None }
+            // burst markers for StreamToPdu (degenerate bursts: at the size limit, with the tail ending on it)
+            let tags = if built.name == "s2pdu" {
+                gen_burst_tags_for(rng, len, Some((built.params[1] as usize, built.params[2] as usize)))
+            } else {
+                gen_tags(rng, len, false)
+            };
+            InSpec { pkts, len, seed: rng.next() >> 8, m, tbl, tags, fixed: None }
         })
         .collect();
     let lens: Vec<usize> = ins.iter().map(|i| i.len).collect();
@@ -382,6 +388,11 @@ pub fn run(args: &[String]) -> Vec<String> {
     for i in 0..cases {
         let mut r = rng.fork();
         out.push(hostile_block(names[i % names.len()], &mut r));
+    }
+    // degenerate bursts for the burst-to-packet converter (at its size limit, tail ending on it): a fixed share
+    for _ in 0..(cases / 12).max(8) {
+        let mut r = rng.fork();
+        out.push(hostile_block("s2pdu", &mut r));
     }
     for _ in 0..cases {
         let mut r = rng.fork();
